@@ -353,3 +353,7 @@ def run(ctx):
     rule_one_cache_one_readset(ctx)
     rule_carried(ctx)
     rule_flush(ctx)
+    # the key of the calling and pedigree caches is the genotype index: it is only injective if the binomial tables it is built from are
+    # read within their own bounds and hold what the fall-back computes
+    from .c11 import rule_tables
+    rule_tables(ctx, rule='R09.8')
